@@ -9,6 +9,8 @@
 //	unbind m=<mac12hex>                => ok [b-=<keyhex>]           RemoveBinding
 //	range <ip8hex>/<len>               => ok [r=<keyhex>:<valhex>]   AddAllowedRange
 //	rangemask <ip8hex> <mask8hex>      => ok [r=…] | err …           AddAllowedRange with an arbitrary mask
+//	range16 <ip8hex>/<len>             => as range, the address handed over in 16-byte form (net.IPv4)
+//	range16m <ip8hex>/<len>            => err …                      16-byte address with a 128-bit mask
 //	(bind/bind6/unbind accept MACs of 1..8 bytes: the manager must refuse all but 6)
 //	rawbind <keyhex> <valhex>          => ok | err size              arbitrary binding bytes
 //	rawcfg <valhex>                    => ok | err size
@@ -305,6 +307,24 @@ func (r *run) Do(op string) string {
 			return "badop"
 		}
 		return r.report(r.mgr.AddAllowedRange(&net.IPNet{IP: net.IP(b), Mask: net.CIDRMask(l, 32)}))
+	case "range16", "range16m": // the IPv4 network with its address in the 16-byte form net.ParseIP / IP.To16 produce
+		if len(t) != 2 {
+			return "badop"
+		}
+		p := strings.Split(t[1], "/")
+		if len(p) != 2 {
+			return "badop"
+		}
+		b, err := hex.DecodeString(p[0])
+		l, err2 := strconv.Atoi(p[1])
+		if err != nil || err2 != nil || len(b) != 4 || l < 0 || l > 32 {
+			return "badop"
+		}
+		ip16 := net.IPv4(b[0], b[1], b[2], b[3]) // 16 bytes
+		if t[0] == "range16m" {
+			return r.report(r.mgr.AddAllowedRange(&net.IPNet{IP: ip16, Mask: net.CIDRMask(96+l, 128)}))
+		}
+		return r.report(r.mgr.AddAllowedRange(&net.IPNet{IP: ip16, Mask: net.CIDRMask(l, 32)}))
 	case "rangemask": // an IPNet with an arbitrary (possibly non-contiguous) mask
 		if len(t) != 3 {
 			return "badop"
@@ -557,7 +577,14 @@ func genSeq(r *rand.Rand) []string {
 				seq = append(seq, "rangemask "+hx.Pick(r, v4s)+" "+hx.Pick(r, []string{"ff00ff00", "ffffff00", "00ffffff", "ffff0001", "00000000", "fffffffe", "80000001"}))
 			}
 		case x < 93:
-			seq = append(seq, "range "+hx.Pick(r, nets))
+			switch r.Intn(6) {
+			case 0, 1: // the same network, address in 16-byte form
+				seq = append(seq, "range16 "+hx.Pick(r, nets))
+			case 2:
+				seq = append(seq, "range16m "+hx.Pick(r, nets))
+			default:
+				seq = append(seq, "range "+hx.Pick(r, nets))
+			}
 		case x < 96: // arbitrary binding bytes: every valid-flag / mode combination, modes beyond 3
 			mac := hx.Pick(r, macs)
 			a4, _ := hex.DecodeString(hx.Pick(r, v4s))
